@@ -1030,4 +1030,109 @@ example :
     streamI counterGen (fun tag _ => tag % 2 == 1) cfg 0 [2, 4, 6] = [.pass, .pass, .pass] := by
   refine ⟨fun _ => rfl, by decide, by decide, by decide, by decide, by decide, by decide⟩
 
+/-! ## the builder: the order of the setters (`chain=` in the case header)
+
+The configuration is a function of WHAT was set, not of the order in which it was set: the last setter of each kind
+wins, a kind never set keeps the builder's default, and a setter touches no field but its own — in particular
+`.max_latency(x)` stores `x` whatever the minimum is at that moment (the default 10 ms, or an earlier
+`.min_latency(..)`), so `.max_latency(5ms).min_latency(1ms)` and `.min_latency(1ms).max_latency(5ms)` both demand
+injected latencies in `[1, 5]` ms. -/
+
+theorem foldl_set_minUs (chain : List Setter) (b : Built) :
+    (chain.foldl Built.set b).minUs = lastMin b.minUs chain := by
+  induction chain generalizing b with
+  | nil => rfl
+  | cons s r ih => cases s <;> simp [List.foldl, Built.set, lastMin, ih]
+
+theorem foldl_set_maxUs (chain : List Setter) (b : Built) :
+    (chain.foldl Built.set b).maxUs = lastMax b.maxUs chain := by
+  induction chain generalizing b with
+  | nil => rfl
+  | cons s r ih => cases s <;> simp [List.foldl, Built.set, lastMax, ih]
+
+theorem lastMin_append (d : Nat) (a b : List Setter) : lastMin d (a ++ b) = lastMin (lastMin d a) b := by
+  induction a generalizing d with
+  | nil => rfl
+  | cons s r ih => cases s <;> simp [lastMin, ih]
+
+theorem lastMax_append (d : Nat) (a b : List Setter) : lastMax d (a ++ b) = lastMax (lastMax d a) b := by
+  induction a generalizing d with
+  | nil => rfl
+  | cons s r ih => cases s <;> simp [lastMax, ih]
+
+theorem lastMin_none (d : Nat) (l : List Setter) (h : ∀ x, Setter.minLat x ∉ l) : lastMin d l = d := by
+  induction l generalizing d with
+  | nil => rfl
+  | cons s r ih =>
+      have hr : ∀ x, Setter.minLat x ∉ r := fun x hx => h x (List.mem_cons_of_mem _ hx)
+      cases s <;> simp [lastMin, ih _ hr]
+      case minLat us => exact absurd (List.mem_cons_self) (h us)
+
+theorem lastMax_none (d : Nat) (l : List Setter) (h : ∀ x, Setter.maxLat x ∉ l) : lastMax d l = d := by
+  induction l generalizing d with
+  | nil => rfl
+  | cons s r ih =>
+      have hr : ∀ x, Setter.maxLat x ∉ r := fun x hx => h x (List.mem_cons_of_mem _ hx)
+      cases s <;> simp [lastMax, ih _ hr]
+      case maxLat us => exact absurd (List.mem_cons_self) (h us)
+
+/-- The bounds of the built configuration are the last `.min_latency(..)` and the last `.max_latency(..)` of the chain
+(10 ms / 100 ms when there is none) — each a function of the setters of ITS kind alone. -/
+theorem built_bounds (chain : List Setter) :
+    (buildChain chain).minUs = lastMin 10000 chain ∧ (buildChain chain).maxUs = lastMax 100000 chain :=
+  ⟨foldl_set_minUs chain {}, foldl_set_maxUs chain {}⟩
+
+/-- **The last setter of each kind wins** — whatever was called before it (`pre`, which may set the other bound to
+anything, or the same bound to something else) and whatever is called after it (`post`), as long as `post` does not set
+the same bound again; a bound never set keeps the builder's default. -/
+theorem builder_last_wins (pre post : List Setter) (us : Nat) :
+    ((∀ x, Setter.minLat x ∉ post) → (buildChain (pre ++ .minLat us :: post)).minUs = us) ∧
+    ((∀ x, Setter.maxLat x ∉ post) → (buildChain (pre ++ .maxLat us :: post)).maxUs = us) ∧
+    ((∀ x, Setter.minLat x ∉ post) → (buildChain post).minUs = 10000) ∧
+    ((∀ x, Setter.maxLat x ∉ post) → (buildChain post).maxUs = 100000) := by
+  refine ⟨fun h => ?_, fun h => ?_, fun h => ?_, fun h => ?_⟩
+  · rw [(built_bounds _).1, lastMin_append]; simp [lastMin, lastMin_none _ _ h]
+  · rw [(built_bounds _).2, lastMax_append]; simp [lastMax, lastMax_none _ _ h]
+  · rw [(built_bounds _).1, lastMin_none _ _ h]
+  · rw [(built_bounds _).2, lastMax_none _ _ h]
+
+/-- **The setters are independent.** A setter that is not `.min_latency(..)` — `.max_latency(..)` above all — called
+anywhere in the chain leaves the configured minimum what it is without that call, and likewise for the maximum; two
+neighbouring setters of different bounds can be swapped without changing the built configuration at all. -/
+theorem latency_setters_independent (a b : List Setter) (s : Setter) :
+    ((∀ x, s ≠ .minLat x) → (buildChain (a ++ s :: b)).minUs = (buildChain (a ++ b)).minUs) ∧
+    ((∀ x, s ≠ .maxLat x) → (buildChain (a ++ s :: b)).maxUs = (buildChain (a ++ b)).maxUs) ∧
+    (∀ x y, buildChain (a ++ .minLat x :: .maxLat y :: b) = buildChain (a ++ .maxLat y :: .minLat x :: b)) := by
+  refine ⟨fun h => ?_, fun h => ?_, fun x y => ?_⟩
+  · rw [(built_bounds _).1, (built_bounds _).1, lastMin_append, lastMin_append]
+    cases s <;> simp [lastMin]
+    case minLat us => exact absurd rfl (h us)
+  · rw [(built_bounds _).2, (built_bounds _).2, lastMax_append, lastMax_append]
+    cases s <;> simp [lastMax]
+    case maxLat us => exact absurd rfl (h us)
+  · simp [buildChain, List.foldl_append, List.foldl, Built.set]
+
+/-- **Injected latency lies within the CONFIGURED range, however the builder setters are ordered**: under the
+configuration a chain builds, a delay the property allows lies between the last configured minimum and the last
+configured maximum (whole milliseconds), and equals the minimum when the two coincide or are inverted. -/
+theorem latency_in_configured_range (chain : List Setter) (eT lT ms : Nat)
+    (ha : allowedDec { eT := eT, lT := lT, minMs := (buildChain chain).bounds.1, maxMs := (buildChain chain).bounds.2 }
+            (.latency ms) = true) :
+    (lastMin 10000 chain / 1000 ≤ lastMax 100000 chain / 1000 →
+      lastMin 10000 chain / 1000 ≤ ms ∧ ms ≤ lastMax 100000 chain / 1000) ∧
+    (lastMax 100000 chain / 1000 ≤ lastMin 10000 chain / 1000 → ms = lastMin 10000 chain / 1000) := by
+  have h := latency_in_range _ ms ha
+  simpa [Built.bounds, (built_bounds chain).1, (built_bounds chain).2] using h
+
+/-- `.latency_rate(1).max_latency(5ms).min_latency(1ms)` demands `[1, 5]` ms — the same as min first; a delay of 8 ms
+is outside the boundary clauses. The builder's defaults, a bound set twice, a seed / a name / the error function in between. -/
+example :
+    (buildChain [.latRate "T1", .maxLat 5000, .minLat 1000, .seed 0]).bounds = (1, 5) ∧
+    (buildChain [.latRate "T1", .minLat 1000, .maxLat 5000, .seed 0]).bounds = (1, 5) ∧
+    allowedDec { eT := 0, lT := P53, minMs := 1, maxMs := 5 } (.latency 8) = false ∧
+    (buildChain [.seed 3]).bounds = (10, 100) ∧
+    (buildChain [.maxLat 5000]).bounds = (10, 5) ∧
+    (buildChain [.minLat 200000, .errRate "T5", .maxLat 7000, .name "a", .errFn, .minLat 2999, .hooks, .maxLat 3000]).bounds = (2, 3) := by
+  decide
+
 end TR.Props.C19
